@@ -163,17 +163,19 @@ def r_whitelist(idx, rep, rule="R-WHITELIST"):
             continue
         hit = tests[0].body
         if name == "detect":
+            rets_ = [st for st in f.node.body if isinstance(st, ast.Return) and isinstance(st.value, ast.Name)]
+            cname = rets_[-1].value.id if rets_ else "contacts"
             marks = {u(st.targets[0]) for st in hit if isinstance(st, ast.Assign) and const(st.value) is True}
-            rep.check(marks == {"contacts[%s]" % fr, "contacts[%s]" % f2}, rule, f.key + "|marks both frames", f.where,
+            rep.check(marks == {"%s[%s]" % (cname, fr), "%s[%s]" % (cname, f2)}, rule, f.key + "|marks both frames", f.where,
                       "a hit must mark contacts[frame] and contacts[frame2]; marks %s" % sorted(marks))
-            init = [st for st in outer[0].body if isinstance(st, ast.Assign) and u(st.targets[0]) == "contacts[%s]" % fr and const(st.value) is False]
+            init = [st for st in outer[0].body if isinstance(st, ast.Assign) and u(st.targets[0]) == "%s[%s]" % (cname, fr) and const(st.value) is False]
             rep.check(len(init) == 1 and init[0].lineno < inner[0].lineno, rule, f.key + "|default False before the candidates", f.where,
                       "contacts[frame] must default to False before the candidate loop")
             skip = [st for st in outer[0].body if isinstance(st, ast.If) and any(isinstance(s, ast.Continue) for s in st.body)]
-            ok = all(u(st.test).replace(" ", "") == "%sincontacts" % fr for st in skip)
+            ok = all(u(st.test).replace(" ", "") == "%sin%s" % (fr, cname) for st in skip)
             rep.check(ok, rule, f.key + "|skips only frames already decided", f.where, "a frame may be skipped only because it is already in contacts")
             rets = [st for st in f.node.body if isinstance(st, ast.Return)]
-            rep.check(len(rets) == 1 and u(rets[0].value) == "contacts", rule, f.key + "|returns contacts", f.where, "detect must return the contacts dict")
+            rep.check(len(rets) == 1 and isinstance(rets[0].value, ast.Name), rule, f.key + "|returns contacts", f.where, "detect must return the contacts dict")
         else:
             ok = len(hit) == 1 and isinstance(hit[0], ast.Return) and const(hit[0].value) is True
             rep.check(ok, rule, f.key + "|True on the first hit", f.where, "detect_any must return True at the first colliding pair")
